@@ -39,30 +39,37 @@ def run(ck):
     cfg = "ec/MC_Generation_quick.cfg" if q else "ec/MC_Generation_thorough.cfg"
     res = ck.tlc_model("ec/MC_Generation", cfg, workers=6 if q else 12, timeout=3000,
                        xmx="8g" if q else "24g")
+    # set-like populations (children with equal keys collapse; the next step makes as many
+    # children as the population then has) are explored in their own configuration
+    cfg_set = "ec/MC_GenerationSet_quick.cfg" if q else "ec/MC_GenerationSet_thorough.cfg"
+    res_set = ck.tlc_model("ec/MC_Generation", cfg_set, workers=6 if q else 12, timeout=3000,
+                           xmx="8g" if q else "24g")
     total = 0
     samples = []
     modes = {}
     shards = 1 if q else 8
-    per = 400 if q else 2500
+    per = 1200 if q else 4000
     for sh in range(shards):
         evs = tv(ck, per, first=sh * per, tag=f"gen{sh}")
         total += len(evs)
         for e in evs:
             if e["ev"] == "reset":
-                k = f"{e['mode']}/n{e['n']}/t{e['threads']}"
+                k = f"{e['mode']}/{e.get('collection')}/n{e['n']}/t{e['threads']}"
                 modes[k] = modes.get(k, 0) + 1
         if sh == 0:
             samples = evs[:4]
     ck.cov["evaluations"] = total
     ck.cov["distinct_nontrivial"] = len(modes)
+    ck.cov["conformance"]["set_like_population_model_states"] = getattr(res_set, "distinct", None)
     ck.cov["rule"] = ("model: every interleaving of claim / finish / fail / commit / abort for N0 children on "
                       "the given workers, serial and parallel mode, two consecutive steps, failure possible at "
                       "every call; conformance: distinct (mode, population size, pool size) configurations of "
-                      "real runs, each with seeded failure positions and schedule perturbation")
+                      "real runs on Vec / VecDeque / LinkedList / BTreeSet / HashSet populations (set-like ones with colliding "
+                      "children, 1-3 consecutive steps), each with seeded failure positions and schedule perturbation")
     ck.cov["exhaustive"] = True
     ck.cov["samples"] = samples
     ck.cov["conformance"]["configurations"] = modes
-    ck.cov["checker_cmd"] = ("tlc MC_Generation (NoTornPopulation SizePreserved AllFresh OwnRandomness "
+    ck.cov["checker_cmd"] = ("tlc MC_Generation seq + set configs (NoTornPopulation SizePreserved CallsMatchSize AllFresh OwnRandomness "
                              "FailureAtomic NoPartialCommit ErrIffFailure SerialDiscipline StepsTerminate); "
                              "vh gen-trace + tlc Trace_Generation")
     ck.assumptions += [
